@@ -67,6 +67,9 @@ var poisonSrc = map[string]string{
 	"pbase": "[{% block b %}LEFTOVER-base{{ nosuchfn() }}{% endblock %}]",
 }
 
+// poisonEvery: one case in poisonEvery is preceded by the failing renders (1 = every case, 0 = never).
+var poisonEvery = 4
+
 var poisonNames = []string{"p1", "p2", "p3", "p4", "p5", "p6", "p7", "p8", "p9"}
 
 func poison() {
@@ -82,10 +85,19 @@ func poison() {
 
 // runLib renders the program with the real library (core environment, recording callbacks).
 func runLib(p *Program, pol gen.Policy, twigEnv bool) (o runOut) {
-	mon.BeginExec()
-	poison()
-	mon.EndCall()
 	src := p.sources(pol)
+	if poisonEvery > 0 {
+		// decided by the program text, so that a replayed case is preceded by the same renders
+		h := uint32(2166136261)
+		for _, c := range []byte(src[p.Main]) {
+			h = (h ^ uint32(c)) * 16777619
+		}
+		if h%uint32(poisonEvery) == 0 {
+			mon.BeginExec()
+			poison()
+			mon.EndCall()
+		}
+	}
 	var env *stick.Env
 	var rec *mon.Recorder
 	if twigEnv {
